@@ -2641,6 +2641,10 @@ def remove_orphan_transposes_ir(graph: ir.Graph) -> None:
                 if _has_named_consumer(nodes, producer=node, output_name=out_name):
                     is_live = True
                     break
+                if _nested_graph_references_value(nodes, out):
+                    # captured by a Loop/If body: the only use is in a nested graph
+                    is_live = True
+                    break
 
             if not is_live:
                 to_remove.append(node)
